@@ -11,7 +11,7 @@ sys.path.insert(0, os.path.join(VERIF, 'gen'))
 import c06gen as G
 
 INF = G.INF
-N_THEOREMS = 16
+N_THEOREMS = 22
 
 
 def build_harness(ck):
